@@ -11,7 +11,8 @@ ORACLES = ("termination",)
 RULE = (
     "cases = call-only DAG programs (2-9 sites) with flags (deactivated nodes), sequential nodes, three resources, "
     "max_concurrency 1..4 (incl. 1 with sequential nodes), 0-2 injected failing nodes, both flavours, executor "
-    "selections; schedules: controlled, exhaustive choice tree, free. oracle: the call returns or raises; a wait on an "
+    "selections, 0-2 setup and 0-2 debug sites (RUN_DEBUG_NODES on or off), one case in five is dag.setup(target_nodes=...) "
+    "instead of a call; schedules: controlled, exhaustive choice tree, free. oracle: the call returns or raises; a wait on an "
     "empty future set with FIRST_COMPLETED (blocks forever) is a hang; no progress for 8 s with the scheduler inside "
     "tawazi and nothing in flight (or nodes in flight that it never waits for) is a hang with structural witness - a "
     "bare timeout is only 'inconclusive'; blocking waits <= 2*pooled+2; on normal return every selected active site "
@@ -37,7 +38,8 @@ def run_case(case: Dict[str, Any]) -> CaseResult:
 
 def strategy(tier: str) -> Any:
     return sc.sched_case(tier=tier, modes=("ctl", "ctl", "free", "ctl-ex"), min_sites=2, max_sites=9, flags=True,
-                         seq_rate=0.25, prio=(-2, 4), faults=2, sel_rate=0.2, max_mc=4, profile_rate=0.25)
+                         seq_rate=0.25, prio=(-2, 4), faults=2, sel_rate=0.2, max_mc=4, profile_rate=0.25,
+                         n_setup=2, n_debug=2, setup_call_rate=0.2)
 
 
 def run_shard(H: Harness) -> None:
